@@ -117,7 +117,7 @@ Definition step_ifaces (u : universe) (g : rgraph) : rgraph :=
     | KOut t s =>
         if is_iface u t then
           fold_left (fun g k2 => match k2 with
-            | KOut t2 s2 => if negb (Base.eqb k k2) && implements u t2 t then add_e g k k2 w_typed else g
+            | KOut t2 s2 => if negb (Base.eqb k k2) && negb (t2 =? t) && implements u t2 t then add_e g k k2 w_typed else g
             | _ => g end) (out_keys g) g
         else g
     | _ => g end) (out_keys g) g.
@@ -171,8 +171,19 @@ Record cgraph := mkCG {
   cg_trace : list event;
   cg_tape : tape vkey }.
 
-Definition call_graph (u : universe) (f : fdecl) (b : builder) (redefining : bool) (t : tape vkey)
-  : res ((cgraph + rerr) * list event) :=
+(* the graph before pruning, with everything callGraph knows *)
+Record fgraph := mkFG {
+  fg_g : rgraph;
+  fg_vals : amap vkey value;
+  fg_target : vkey;
+  fg_freq : list vkey;             (* requirements of the target *)
+  fg_inputs : list vkey;
+  fg_convs : list fdecl;
+  fg_trace : list event;
+  fg_tape : tape vkey }.
+
+Definition full_graph (u : universe) (f : fdecl) (b : builder) (redefining : bool) (t : tape vkey)
+  : res ((fgraph + rerr) * list event) :=
   let g := g_add g_empty KRoot PNone in
   let g := func_graph g f false in
   let tk := KFunc (fn_type f) in
@@ -198,14 +209,26 @@ Definition call_graph (u : universe) (f : fdecl) (b : builder) (redefining : boo
       let g := step_named_sub (fun k => mem k vals) g in
       let g := step_arg_sub g in
       let g := if redefining then step_redefine u (b_fin b) g else g in
-      (* prune what the inputs cannot reach *)
-      let keep := closure (S (List.length (g_vertex_keys g))) g tk [KRoot] [KRoot] in
-      let g := fold_left (fun g k => if memb k keep then g else g_remove g k) (g_vertex_keys g) g in
-      let unsat := filter (fun k => negb (mem k (ghash g))) freq in
-      match unsat with
-      | [] => Ok (inl (mkCG g vals tk (map fst ins) convs tr t), tr)
-      | _ => Ok (inr (XUnsat unsat (map fst ins) (map fn_type convs) true), tr)
-      end
+      Ok (inl (mkFG g vals tk freq (map fst ins) convs tr t), tr)
+  end.
+
+(* prune what the inputs cannot reach; report pruned requirements *)
+Definition prune (fg : fgraph) : cgraph + rerr :=
+  let g := fg_g fg in
+  let keep := closure (S (List.length (g_vertex_keys g))) g (fg_target fg) [KRoot] [KRoot] in
+  let g := fold_left (fun g k => if memb k keep then g else g_remove g k) (g_vertex_keys g) g in
+  let unsat := filter (fun k => negb (mem k (ghash g))) (fg_freq fg) in
+  match unsat with
+  | [] => inl (mkCG g (fg_vals fg) (fg_target fg) (fg_inputs fg) (fg_convs fg) (fg_trace fg) (fg_tape fg))
+  | _ => inr (XUnsat unsat (fg_inputs fg) (map fn_type (fg_convs fg)) true)
+  end.
+
+Definition call_graph (u : universe) (f : fdecl) (b : builder) (redefining : bool) (t : tape vkey)
+  : res ((cgraph + rerr) * list event) :=
+  do (r, tr) <- full_graph u f b redefining t;
+  match r with
+  | inr e => Ok (inr e, tr)
+  | inl fg => Ok (prune fg, tr)
   end.
 
 (* ---------- reachTarget ---------- *)
